@@ -17,6 +17,8 @@ import (
 	"time"
 
 	"github.com/free5gc/nas"
+	"github.com/free5gc/nas/nasConvert"
+	"github.com/free5gc/nas/nasType"
 )
 
 func runOp(line string) string {
@@ -84,6 +86,68 @@ func concMain(g int) {
 				}
 			}
 		}
+	}
+	// other shared values that callers only read from several goroutines: protocol configuration options (Marshal), QoS rules and
+	// flow descriptions (MarshalBinary),
+	type sharedVal struct {
+		read func() string
+		want string
+	}
+	var sv []sharedVal
+	kindCount := map[string]int{}
+	for _, l := range lines {
+		t := strings.Fields(l)
+		if len(t) < 2 {
+			continue
+		}
+		if kindCount[t[0]] >= 50 {
+			continue
+		}
+		switch {
+		case len(t) == 2 && t[0] == "pcomar":
+			kindCount[t[0]]++
+			if us, ok := parseUnits(t[1]); ok {
+				pco := nasConvert.NewProtocolConfigurationOptions()
+				pco.ProtocolOrContainerList = us
+				sv = append(sv, sharedVal{read: func() string { return hexs(pco.Marshal()) }})
+			}
+		case len(t) == 3 && t[0] == "qr" && t[1] == "unm":
+			kindCount[t[0]]++
+			if b, ok := unhex(t[2]); ok {
+				var r nasType.QoSRules
+				if r.UnmarshalBinary(b) == nil {
+					rr := r
+					sv = append(sv, sharedVal{read: func() string {
+						o, err := rr.MarshalBinary()
+						if err != nil {
+							return "err"
+						}
+						return hexs(o)
+					}})
+				}
+			}
+		case len(t) == 3 && t[0] == "qfd" && t[1] == "unm":
+			kindCount[t[0]]++
+			if b, ok := unhex(t[2]); ok {
+				var r nasType.QoSFlowDescs
+				if r.UnmarshalBinary(b) == nil {
+					rr := r
+					sv = append(sv, sharedVal{read: func() string {
+						o, err := rr.MarshalBinary()
+						if err != nil {
+							return "err"
+						}
+						return hexs(o)
+					}})
+				}
+			}
+		}
+	}
+	// (a shared security.Count is deliberately not among them: Get() stores the masked word back, so concurrent Get calls on one
+	// counter race on the unchanged tree; a NAS COUNT belongs to one security context and C19 speaks of distinct values or a
+	// shared decoded message - recorded in DESIGN 9.4e as an observation, not a finding)
+	for i := range sv {
+		sv[i].want = safely(sv[i].read)
 	}
 	// "hot" ops: a few lines of every op kind (first two tokens; the longest ones, which carry the most elements), run by EVERY
 	// goroutine, so that each code path is executed by many goroutines at once (per-kind scratch state shows up as a race)
@@ -214,6 +278,15 @@ func concMain(g int) {
 					}
 				}
 			}
+			for k := range sv {
+				v := sv[(k+w)%len(sv)]
+				for rep := 0; rep < 20; rep++ {
+					if got := safely(v.read); got != v.want {
+						note("a shared value that is only read (Marshal / MarshalBinary / Get) answers differently under concurrent readers")
+						break
+					}
+				}
+			}
 			for k := range sh {
 				s := sh[(k+w)%len(sh)]
 				if got := showNas(s.m) + readAll(s.m); got != s.show {
@@ -233,7 +306,7 @@ func concMain(g int) {
 		}(w)
 	}
 	wg.Wait()
-	fmt.Printf("conc ops=%d goroutines=%d shared=%d hot=%d mismatches=%d\n", len(lines), g, len(sh), len(hot), mismatches)
+	fmt.Printf("conc ops=%d goroutines=%d shared=%d sharedvalues=%d hot=%d mismatches=%d\n", len(lines), g, len(sh), len(sv), len(hot), mismatches)
 	if first != "" {
 		fmt.Println("first: " + first)
 	}
